@@ -436,7 +436,7 @@ func parseTextWebVTTTextToken(sa *StyleAttributes, line string, startAt time.Dur
 		return []LineItem{{
 			InlineStyle: sa,
 			StartAt:     startAt,
-			Text:        unescapeHTML(line),
+			Text:        unescapeWebVTT(line),
 		}}, 0
 	}
 
@@ -445,7 +445,7 @@ func parseTextWebVTTTextToken(sa *StyleAttributes, line string, startAt time.Dur
 		ret = append(ret, LineItem{
 			InlineStyle: sa,
 			StartAt:     startAt,
-			Text:        unescapeHTML(s),
+			Text:        unescapeWebVTT(s),
 		})
 	}
 
@@ -475,11 +475,17 @@ func parseTextWebVTTTextToken(sa *StyleAttributes, line string, startAt time.Dur
 		ret = append(ret, LineItem{
 			InlineStyle: sa,
 			StartAt:     t,
-			Text:        unescapeHTML(s),
+			Text:        unescapeWebVTT(s),
 		})
 	}
 
 	return
+}
+
+// unescapeWebVTT replaces the character references of a cue text span or annotation (&amp; &lt; &gt; &nbsp;
+// &lrm; &rlm;, numeric references, ...) in a single pass
+func unescapeWebVTT(i string) string {
+	return html.UnescapeString(i)
 }
 
 // formatDurationWebVTT formats a .vtt duration
